@@ -463,9 +463,12 @@ INT_TYPES = re.compile(r"\b(int|long|short|unsigned|size_t|Index|ptrdiff_t|int64
 
 
 def is_int_type(t):
-    t = t or ""
-    if "double" in t or "float" in t or "Scalar" in t:
-        return False
+    t = (t or "").strip()
+    m = re.match(r"^(?:static_cast|const_cast|reinterpret_cast)\s*<(.*)>$", t)
+    if m:
+        t = m.group(1)
+    if "double" in t or "float" in t or "Scalar" in t or "<" in t:
+        return False          # class templates that merely mention an integer type (Eigen::Matrix<int, -1, 1>) are not integers
     return bool(INT_TYPES.search(t))
 
 
@@ -1186,6 +1189,8 @@ class Machine:
         if meth == "operator()" or meth == "operator[]":
             return self.index(base, [self.eval(a, env) for a in args])
         h = getattr(base, "m_" + meth, None)
+        if h is None and meth.startswith("operator ") and hasattr(base, "truth") and meth.split()[-1] == "bool":
+            return base.truth()           # explicit conversion to bool (for (It it(...); it; ++it) on a non-dependent iterator type)
         self.call_env = env
         if h is not None:
             lazy = getattr(h, "lazy", False)
@@ -1362,7 +1367,7 @@ class Machine:
             env.bind(nm, c)
             return
         init = TE(ks[-1])
-        if v.get("init") == "call" and ks[-1].get("kind") in ("CXXConstructExpr", "CXXTemporaryObjectExpr", "CXXUnresolvedConstructExpr", "ParenListExpr", "InitListExpr"):
+        if v.get("init") == "call" and A.strip(ks[-1]).get("kind") in ("CXXConstructExpr", "CXXTemporaryObjectExpr", "CXXUnresolvedConstructExpr", "ParenListExpr", "InitListExpr"):
             # direct-initialisation T x(a, b) / T x{a, b}: construct an object of the declared type
             n0 = A.strip(ks[-1])
             cargs = [TE(c) for c in A.kids(n0) if c.get("kind") != "CXXDefaultArgExpr"]
